@@ -1,4 +1,435 @@
-//! harness family c16 (stub until the family is built)
+//! harness family c16: renumbering of Applesoft / Integer BASIC programs (property C16).
+//!
+//! * tie: what the real `gather_defs`/`gather_refs` return is serialised to the Lean model
+//!   (`c16 renum ...`); the model's result must equal the real `Renumberer::renumber` result
+//!   (`ok <hex>` / `err` / `panic`).  `c16 labelsok` checks the `LabelsOK` contract on the gathered labels.
+//! * direct oracles (independent of the model): the generator knows every number it wrote (primary,
+//!   reference, or plain text); the expected output is rendered from that knowledge and compared.
 use crate::util::*;
+use a2kit::lang::linenum::{LabelInformation, Renumber};
+use std::collections::BTreeMap;
 
-pub fn run(_ctx: &mut Ctx) {}
+#[derive(Clone, Debug)]
+enum Seg { Lit(String), Prim(usize), Ref(usize) }
+type PLine = Vec<Seg>;
+
+#[derive(Clone, Copy, PartialEq)]
+enum Lang { Applesoft, Integer }
+impl Lang {
+    fn name(&self) -> &'static str { match self { Lang::Applesoft => "applesoft", Lang::Integer => "integer" } }
+    fn max(&self) -> usize { match self { Lang::Applesoft => 63999, Lang::Integer => 32767 } }
+}
+
+struct Prog { lines: Vec<PLine>, crlf: bool, trailing: bool }
+
+fn is_blank(l: &PLine) -> bool { !l.iter().any(|s| matches!(s, Seg::Prim(_))) }
+
+fn render_line(l: &PLine, f: &dyn Fn(&Seg) -> String) -> String { l.iter().map(|s| f(s)).collect() }
+
+fn plain(s: &Seg) -> String { match s { Seg::Lit(t) => t.clone(), Seg::Prim(n) | Seg::Ref(n) => n.to_string() } }
+
+impl Prog {
+    fn render_with(&self, lines: &Vec<String>) -> String {
+        let sep = if self.crlf { "\r\n" } else { "\n" };
+        let mut s = lines.join(sep);
+        if self.trailing && !lines.is_empty() { s += sep; }
+        s
+    }
+    fn text(&self) -> String { self.render_with(&self.lines.iter().map(|l| render_line(l, &plain)).collect()) }
+    fn nums(&self) -> Vec<usize> {
+        self.lines.iter().filter_map(|l| l.iter().find_map(|s| if let Seg::Prim(n) = s { Some(*n) } else { None })).collect()
+    }
+}
+
+fn lit(s: &str) -> Seg { Seg::Lit(s.to_string()) }
+
+/// one statement; `refs` draws a reference target
+fn gen_statement(rng: &mut Rng, lang: Lang, target: &mut dyn FnMut(&mut Rng) -> usize, last: bool) -> Vec<Seg> {
+    let sp = |rng: &mut Rng| -> &'static str { *rng.pick(&[" ", " ", " ", "", "  "]) };
+    let comma = |rng: &mut Rng| -> &'static str { *rng.pick(&[",", ",", ", ", " ,", " , "]) };
+    let lower = rng.chance(10);
+    let kw = |s: &str| -> String { if lower { s.to_lowercase() } else { s.to_string() } };
+    let mut v: Vec<Seg> = Vec::new();
+    let k = rng.below(if lang == Lang::Applesoft { 20 } else { 16 });
+    match (lang, k) {
+        (_, 0) | (_, 1) | (_, 2) => { v.push(Seg::Lit(kw("GOTO") + sp(rng))); v.push(Seg::Ref(target(rng))); }
+        (_, 3) | (_, 4) => { v.push(Seg::Lit(kw("GOSUB") + sp(rng))); v.push(Seg::Ref(target(rng))); }
+        (_, 5) | (_, 6) => { v.push(Seg::Lit(kw("IF A=1 THEN") + sp(rng))); v.push(Seg::Ref(target(rng))); }
+        (_, 7) => { v.push(Seg::Lit(kw("IF A>B THEN GOTO") + sp(rng))); v.push(Seg::Ref(target(rng))); }
+        (_, 8) => v.push(lit(*rng.pick(&["PRINT \"GOTO 10\"", "PRINT \"20 GOSUB 30\"", "PRINT \"100\";A"]))),
+        (_, 9) => v.push(Seg::Lit(format!("A={}", rng.pick(&[10usize, 20, 100, 63999, 7])))),
+        (_, 10) => v.push(lit(*rng.pick(&["POKE 768,10", "PRINT 10", "PRINT 20;30", "FOR I=10 TO 20", "NEXT I", "END", "RETURN"]))),
+        (_, 11) if last => v.push(lit(*rng.pick(&["REM GOTO 10", "REM 10 20 30 GOSUB 40", "REM", "rem then 100"]))),
+        (_, 12) => v.push(lit(*rng.pick(&["IF A=10 THEN PRINT 20", "IF A=10 THEN A=20", "B=A*100+20"]))),
+        (Lang::Integer, 13) => v.push(lit(*rng.pick(&["GOTO A*10", "GOSUB A+100", "GOTO 100+A", "IF A THEN B*10", "GOTO (100)"]))),
+        (Lang::Applesoft, 13) | (Lang::Applesoft, 14) | (Lang::Applesoft, 15) => {
+            v.push(Seg::Lit(kw(*rng.pick(&["ON X GOTO", "ON X GOSUB", "ON A+1 GOTO"])) + sp(rng)));
+            let n = rng.range(1, 4);
+            for i in 0..n {
+                if i > 0 { v.push(lit(comma(rng))); }
+                v.push(Seg::Ref(target(rng)));
+            }
+        }
+        (Lang::Applesoft, 16) => { v.push(Seg::Lit(kw("ONERR GOTO") + sp(rng))); v.push(Seg::Ref(target(rng))); }
+        (Lang::Applesoft, 17) => v.push(lit(*rng.pick(&["DATA 10,20,30", "DATA 100", "HOME", "HTAB 10: VTAB 20"]))),
+        (Lang::Applesoft, 18) => { v.push(Seg::Lit(kw("IF B THEN") + sp(rng))); v.push(Seg::Ref(target(rng))); v.push(lit(" ")); }
+        _ => v.push(lit(*rng.pick(&["PRINT A", "A=B", "TEXT", "B=B+1"]))),
+    }
+    v
+}
+
+fn gen_prog(rng: &mut Rng, lang: Lang) -> Prog {
+    let max = lang.max();
+    let nlines = match rng.below(10) { 0 => 1, 1 => 2, 2..=6 => rng.range(3, 7), _ => rng.range(8, 14) };
+    let mut nums: Vec<usize> = Vec::new();
+    let mut cur = match rng.below(6) { 0 => 0, 1 => rng.range(0, 9), 2 => rng.range(max - 200, max - 20), 3 => rng.range(900, 1100), _ => rng.range(1, 120) };
+    for _ in 0..nlines {
+        if cur > max { break; }
+        nums.push(cur);
+        cur += *rng.pick(&[1usize, 1, 2, 5, 10, 10, 10, 10, 90, 100, 1000]);
+    }
+    let pool = nums.clone();
+    let mut target = move |rng: &mut Rng| -> usize {
+        match rng.below(10) {
+            0 => { let b = *rng.pick(&pool); if rng.chance(50) { b + 1 } else { b.saturating_sub(1) } }  // mostly missing
+            1 => rng.range(0, max),
+            _ => *rng.pick(&pool),
+        }
+    };
+    let mut lines: Vec<PLine> = Vec::new();
+    for n in &nums {
+        if rng.chance(12) { lines.push(vec![lit(*rng.pick(&["", "", " ", "  "]))]); }
+        let mut l: PLine = Vec::new();
+        if rng.chance(6) { l.push(lit(" ")); }
+        l.push(Seg::Prim(*n));
+        l.push(lit(*rng.pick(&[" ", " ", " ", "  ", ""])));
+        let ns = rng.range(1, 3);
+        for i in 0..ns {
+            if i > 0 { l.push(lit(*rng.pick(&[":", ": ", " : "]))); }
+            let mut st = gen_statement(rng, lang, &mut target, i + 1 == ns);
+            // a digit must never follow a number segment directly; a number directly after a primary
+            // would fuse with it
+            if let (Some(Seg::Lit(prev)), Some(Seg::Lit(first))) = (l.last(), st.first()) {
+                if prev.is_empty() && first.chars().next().map(|c| c.is_ascii_digit()).unwrap_or(false) { st.insert(0, lit(" ")); }
+            }
+            l.append(&mut st);
+        }
+        lines.push(l);
+    }
+    if rng.chance(8) { lines.push(vec![lit("")]); }
+    Prog { lines, crlf: rng.chance(25), trailing: rng.chance(50) }
+}
+
+struct Req { beg: usize, end: usize, first: usize, step: usize, flags: u64 }
+
+fn gen_req(rng: &mut Rng, lang: Lang, nums: &Vec<usize>) -> Req {
+    let max = lang.max();
+    let near = |rng: &mut Rng| -> usize {
+        if nums.is_empty() { return rng.range(0, 100); }
+        let b = *rng.pick(nums);
+        match rng.below(4) { 0 => b, 1 => b + 1, 2 => b.saturating_sub(1), _ => b + rng.range(0, 12) }
+    };
+    let (beg, end) = match rng.below(24) {
+        0 | 1 | 2 => (0, usize::MAX),
+        3 => (0, near(rng)),
+        4 => (near(rng), usize::MAX),
+        5 => { let b = near(rng); (b, b) }                                   // empty
+        6 => { let b = near(rng); (b + 1, b.saturating_sub(1)) }             // beg > end
+        7 => { let m = nums.iter().max().cloned().unwrap_or(0); (m + 1, m + 100) } // beyond the program
+        _ => { let a = near(rng); let b = near(rng); (a.min(b), a.max(b) + rng.below(2)) }
+    };
+    let sel: Vec<usize> = nums.iter().cloned().filter(|n| *n >= beg && *n < end).collect();
+    let first = match rng.below(12) {
+        0 => 0,
+        1 => rng.range(1, 9),
+        2 => max,
+        3 => rng.range(max - 30, max),
+        4 => max + rng.range(1, 10),
+        5 | 6 => near(rng),
+        7 | 8 if !sel.is_empty() => { let s0 = sel[0]; match rng.below(3) { 0 => s0, 1 => s0 + 1, _ => s0.saturating_sub(rng.range(0, 9)) } }
+        9 => rng.range(1000, 1010),
+        _ => rng.range(0, 200),
+    };
+    let step = match rng.below(12) { 0 => 0, 1 | 2 | 3 => 1, 4 => 2, 5 => 5, 6 | 7 | 8 => 10, 9 => 100, 10 => rng.range(1, 2000), _ => if rng.chance(50) { max } else { max + 1 } };
+    let flags = match rng.below(20) { 0..=9 => 0, 10..=17 => 1, 18 => 2, _ => 3 };
+    Req { beg, end, first, step, flags }
+}
+
+fn gather(lang: Lang, src: &str) -> Result<(Vec<(usize, LabelInformation)>, Vec<(usize, LabelInformation)>), String> {
+    let flat = |m: BTreeMap<usize, Vec<LabelInformation>>| -> Vec<(usize, LabelInformation)> {
+        let mut v: Vec<(usize, LabelInformation)> = Vec::new();
+        for (k, infos) in m { for i in infos { v.push((k, i)); } }
+        // encounter order = row order, then column (stable: equal keys keep the Vec order)
+        v.sort_by_key(|(_, i)| (i.rng.start.line, i.rng.start.character));
+        v
+    };
+    let r = guarded(|| -> Result<_, String> {
+        match lang {
+            Lang::Applesoft => {
+                let mut r = a2kit::lang::applesoft::renumber::Renumberer::new();
+                let d = r.gather_defs(src, 0).map_err(|e| e.to_string())?;
+                let s = r.gather_refs(src, 0).map_err(|e| e.to_string())?;
+                Ok((d, s))
+            }
+            Lang::Integer => {
+                let mut r = a2kit::lang::integer::renumber::Renumberer::new();
+                let d = r.gather_defs(src, 0).map_err(|e| e.to_string())?;
+                let s = r.gather_refs(src, 0).map_err(|e| e.to_string())?;
+                Ok((d, s))
+            }
+        }
+    });
+    match r { Ok(Ok((d, s))) => Ok((flat(d), flat(s))), Ok(Err(e)) => Err(format!("err:{}", e)), Err(p) => Err(format!("panic:{}", panic_site(&p))) }
+}
+
+fn run_real(lang: Lang, src: &str, rq: &Req) -> Result<Result<String, String>, String> {
+    guarded(|| match lang {
+        Lang::Applesoft => {
+            let mut r = a2kit::lang::applesoft::renumber::Renumberer::new();
+            r.set_flags(rq.flags);
+            r.renumber(src, rq.beg, rq.end, rq.first, rq.step).map_err(|e| e.to_string())
+        }
+        Lang::Integer => {
+            let mut r = a2kit::lang::integer::renumber::Renumberer::new();
+            r.set_flags(rq.flags);
+            r.renumber(src, rq.beg, rq.end, rq.first, rq.step).map_err(|e| e.to_string())
+        }
+    })
+}
+
+fn ser_labels(v: &Vec<(usize, LabelInformation)>) -> String {
+    if v.is_empty() { return "-".to_string(); }
+    v.iter().map(|(n, i)| format!("{},{},{},{},{},{},{}", n, i.rng.start.line, i.rng.start.character, i.rng.end.line, i.rng.end.character, i.leading_space, i.trailing_space)).collect::<Vec<_>>().join(";")
+}
+
+/// where the generator put the numbers: (num,row,col0,col1) of the digits
+fn known_positions(p: &Prog) -> (Vec<(usize, usize, usize, usize)>, Vec<(usize, usize, usize, usize)>) {
+    let (mut prims, mut refs) = (Vec::new(), Vec::new());
+    for (row, l) in p.lines.iter().enumerate() {
+        let mut col = 0;
+        for s in l {
+            let t = plain(s);
+            match s {
+                Seg::Prim(n) => prims.push((*n, row, col, col + t.len())),
+                Seg::Ref(n) => refs.push((*n, row, col, col + t.len())),
+                _ => {}
+            }
+            col += t.len();
+        }
+    }
+    (prims, refs)
+}
+
+fn digit_span(v: &Vec<(usize, LabelInformation)>) -> Vec<(usize, usize, usize, usize)> {
+    v.iter().map(|(n, i)| (*n, i.rng.start.line as usize, i.rng.start.character as usize + i.leading_space, i.rng.end.character as usize - i.trailing_space)).collect()
+}
+
+/// split the way `str::lines` does
+fn out_lines(s: &str) -> Vec<String> { s.lines().map(|l| l.to_string()).collect() }
+
+/// read the numbers found in `actual` at the number segments of `l`; None if a literal segment differs
+fn match_line(l: &PLine, actual: &str) -> Option<Vec<usize>> {
+    let b = actual.as_bytes();
+    let mut pos = 0;
+    let mut nums = Vec::new();
+    for s in l {
+        match s {
+            Seg::Lit(t) => { if !actual[pos..].starts_with(t.as_str()) { return None; } pos += t.len(); }
+            _ => {
+                let st = pos;
+                while pos < b.len() && b[pos].is_ascii_digit() { pos += 1; }
+                if st == pos || pos - st > 18 { return None; }
+                nums.push(actual[st..pos].parse::<usize>().ok()?);
+            }
+        }
+    }
+    if pos != b.len() { return None; }
+    Some(nums)
+}
+
+fn special_cases(lang: Lang) -> Vec<(Prog, Req)> {
+    let mk = |txt: &[&str], crlf: bool, trailing: bool| -> Prog {
+        // parse "N rest" lines with no references marked (used only for tie + weak oracles)
+        let lines = txt.iter().map(|t| {
+            let digits: String = t.chars().take_while(|c| c.is_ascii_digit()).collect();
+            if digits.is_empty() { vec![lit(t)] } else { vec![Seg::Prim(digits.parse().unwrap()), lit(&t[digits.len()..])] }
+        }).collect();
+        Prog { lines, crlf, trailing }
+    };
+    let m = lang.max();
+    vec![
+        (Prog { lines: vec![], crlf: false, trailing: false }, Req { beg: 0, end: usize::MAX, first: 10, step: 10, flags: 0 }),
+        (mk(&["", " "], false, true), Req { beg: 0, end: usize::MAX, first: 10, step: 10, flags: 0 }),
+        // DESIGN §9 item 23: empty selection
+        (mk(&["10 PRINT A", "20 PRINT B", "30 END"], false, false), Req { beg: 21, end: 29, first: 500, step: 1, flags: 0 }),
+        (mk(&["10 PRINT A", "20 PRINT B", "30 END"], false, true), Req { beg: 100, end: 200, first: 500, step: 10, flags: 1 }),
+        (mk(&["10 PRINT A", "20 PRINT B", "30 END"], true, true), Req { beg: 0, end: usize::MAX, first: m - 2, step: 1, flags: 0 }),
+        (mk(&["10 PRINT A", "20 PRINT B", "30 END"], true, false), Req { beg: 0, end: usize::MAX, first: m - 1, step: 1, flags: 0 }),
+        (mk(&["30 PRINT A", "40 PRINT B"], false, false), Req { beg: 10, end: 20, first: 5, step: 1, flags: 0 }),
+        // move of the last row upward, with and without trailing newline
+        (mk(&["10 PRINT A", "20 PRINT B", "30 END"], false, false), Req { beg: 30, end: 31, first: 5, step: 1, flags: 1 }),
+        (mk(&["10 PRINT A", "20 PRINT B", "30 END"], false, true), Req { beg: 30, end: 31, first: 5, step: 1, flags: 1 }),
+        (mk(&["10 PRINT A", "20 PRINT B", "30 END"], true, true), Req { beg: 10, end: 11, first: 25, step: 1, flags: 1 }),
+        (mk(&["10 PRINT A", "", "20 PRINT B", "", "30 END"], false, true), Req { beg: 10, end: 11, first: 25, step: 1, flags: 1 }),
+    ]
+}
+
+pub fn run(ctx: &mut Ctx) {
+    let mut rng = Rng::new(ctx.seed ^ 0xC16);
+    let n = ctx.n(10000, 200000);
+    let mut idx = 0usize;
+    for lang in [Lang::Applesoft, Lang::Integer] {
+        let specials = special_cases(lang);
+        let ns = specials.len();
+        let mut specials = specials.into_iter();
+        for k in 0..(n / 2 + ns) {
+            let my = idx;
+            idx += 1;
+            let mut r = rng.fork(my as u64);
+            let (prog, rq, marked) = if k < ns { let (p, q) = specials.next().unwrap(); (p, q, false) } else {
+                let p = gen_prog(&mut r, lang);
+                let q = gen_req(&mut r, lang, &p.nums());
+                (p, q, true)
+            };
+            if !ctx.out.wants(my) { continue; }
+            one_case(ctx, lang, my, &prog, &rq, marked);
+        }
+    }
+}
+
+fn one_case(ctx: &mut Ctx, lang: Lang, idx: usize, prog: &Prog, rq: &Req, marked: bool) {
+    let ln = lang.name();
+    let src = prog.text();
+    let case = format!("idx={} lang={} beg={} end={} first={} step={} flags={} src={:?}", idx, ln, rq.beg, rq.end, rq.first, rq.step, rq.flags, src);
+    let nums = prog.nums();
+    let max = lang.max();
+    let sel: Vec<usize> = nums.iter().cloned().filter(|x| *x >= rq.beg && *x < rq.end).collect();
+
+    // ---- what the real code gathers (input of the model) --------------------------------------
+    let (defs, refs) = match gather(lang, &src) {
+        Ok(x) => x,
+        Err(e) => { ctx.out.oracle(false, "gather", &format!("c16/{}/gather-{}", ln, e.split(':').next().unwrap_or("err")), &case); return; }
+    };
+    if marked {
+        let (kp, kr) = known_positions(prog);
+        let mut gp = digit_span(&defs); gp.sort_by_key(|x| (x.1, x.2));
+        let mut gr = digit_span(&refs); gr.sort_by_key(|x| (x.1, x.2));
+        ctx.out.oracle(gp == kp, "gather-defs", &format!("c16/{}/gather-defs-mismatch", ln), &case);
+        ctx.out.oracle(gr == kr, "gather-refs", &format!("c16/{}/gather-refs-mismatch", ln), &case);
+        ctx.out.q(&format!("c16 labelsok {} {} {}", hx(src.as_bytes()), ser_labels(&defs), ser_labels(&refs)), "true");
+    }
+
+    // ---- the real renumber --------------------------------------------------------------------
+    let before = src.clone();
+    let real = run_real(lang, &src, rq);
+    let ans = match &real { Ok(Ok(t)) => format!("ok {}", hx(t.as_bytes())), Ok(Err(_)) => "err".to_string(), Err(_) => "panic".to_string() };
+    // HEAD treats an empty selection as "whole document" (finding empty-selection-renumbered, reported by the
+    // oracle below); that behaviour is compared with the legacy model so that the tie stays exact on both
+    // the unfixed and the fixed code
+    let op = if sel.is_empty() && !matches!(real, Ok(Err(_))) { "renum-legacy" } else { "renum" };
+    ctx.out.q(&format!("c16 {} {} {} {} {} {} {} {} {} {}", op, max, rq.flags, rq.beg, rq.end, rq.first, rq.step, hx(src.as_bytes()), ser_labels(&defs), ser_labels(&refs)), &ans);
+    ctx.out.oracle(src == before, "refusal-unmodified", &format!("c16/{}/source-modified", ln), &case);
+
+    // ---- distribution -------------------------------------------------------------------------
+    let outcome = match &real { Ok(Ok(_)) => "ok", Ok(Err(_)) => "refused", Err(_) => "panic" };
+    ctx.out.count(&format!("{}:{}", ln, outcome));
+    ctx.out.count(&format!("sel:{}", match sel.len() { 0 => "empty", 1 => "one", x if x == nums.len() => "all", _ => "part" }));
+    if prog.crlf { ctx.out.count("crlf"); }
+    if rq.flags & 1 == 1 { ctx.out.count("move-flag"); }
+    let nrefs = refs.len();
+    ctx.out.count(&format!("refs:{}", match nrefs { 0 => "0", 1..=2 => "1-2", 3..=6 => "3-6", _ => "7+" }));
+
+    // ---- direct oracles -----------------------------------------------------------------------
+    // expected mapping from the property text: selected lines, ascending, get first, first+step, ...
+    let mapping: BTreeMap<usize, usize> = sel.iter().enumerate().map(|(i, x)| (*x, rq.first + i * rq.step)).collect();
+    let digit_change = mapping.iter().any(|(a, b)| a.to_string().len() != b.to_string().len());
+    match &real {
+        Err(p) => {
+            // a crash is not a refusal; the only crash the design knows is the empty document
+            let empty_doc = src.lines().count() == 0;
+            ctx.out.oracle(empty_doc, "no-panic", &format!("c16/{}/panic:{}", ln, panic_site(p).split(':').next().unwrap_or("?").rsplit('/').next().unwrap_or("?")), &case);
+            if empty_doc { ctx.out.count("panic-empty-doc"); }
+        }
+        Ok(Err(_)) => {}
+        Ok(Ok(out)) => {
+            let olines = out_lines(out);
+            if sel.is_empty() {
+                ctx.out.oracle(*out == src, "empty-selection", &format!("c16/{}/empty-selection-renumbered", ln), &case);
+            } else {
+                // line structure: every non-blank output line must be one of the input lines with numbers replaced
+                let src_nb: Vec<&PLine> = prog.lines.iter().filter(|l| !is_blank(l)).collect();
+                let out_nb: Vec<&String> = olines.iter().filter(|l| !l.trim().is_empty()).collect();
+                let moved = rq.flags & 1 == 1;
+                // expected order of the non-blank lines
+                let mut order: Vec<usize> = (0..src_nb.len()).collect();
+                let newnum = |i: usize| -> usize { let old = nums[i]; *mapping.get(&old).unwrap_or(&old) };
+                if moved { order.sort_by_key(|i| newnum(*i)); }  // stable
+                if order.windows(2).any(|w| w[0] > w[1]) { ctx.out.count("moved-block"); }
+                let mut ok_lines = out_nb.len() == src_nb.len();
+                let mut ok_text = true; let mut ok_prim = true; let mut ok_ref = true; let mut ok_ref_other = true;
+                let mut out_prims: Vec<usize> = Vec::new();
+                if ok_lines {
+                    for (pos, i) in order.iter().enumerate() {
+                        match match_line(src_nb[*i], out_nb[pos]) {
+                            None => { ok_text = false; }
+                            Some(found) => {
+                                let mut it = found.iter();
+                                for s in src_nb[*i] {
+                                    match s {
+                                        Seg::Prim(old) => { let f = *it.next().unwrap(); out_prims.push(f); if f != *mapping.get(old).unwrap_or(old) { ok_prim = false; } }
+                                        Seg::Ref(old) => {
+                                            let f = *it.next().unwrap();
+                                            let want = if rq.flags & 2 == 0 { *mapping.get(old).unwrap_or(old) } else { *old };
+                                            if f != want { if mapping.contains_key(old) { ok_ref = false; } else { ok_ref_other = false; } }
+                                        }
+                                        _ => {}
+                                    }
+                                }
+                            }
+                        }
+                    }
+                } else { ok_lines = false; }
+                let ascending = out_prims.windows(2).all(|w| w[0] < w[1]);
+                ctx.out.oracle(ok_lines, "same-lines", &format!("c16/{}/lines-changed", ln), &case);
+                if ok_lines {
+                    ctx.out.oracle(ok_text, "text-unchanged", &format!("c16/{}/text-changed", ln), &case);
+                    if ok_text {
+                        ctx.out.oracle(ok_prim, "primary-sequence", &format!("c16/{}/primary-seq", ln), &case);
+                        ctx.out.oracle(ok_ref, "refs-follow", &format!("c16/{}/ref-not-updated", ln), &case);
+                        ctx.out.oracle(ok_ref_other, "refs-others", &format!("c16/{}/ref-wrongly-changed", ln), &case);
+                        ctx.out.oracle(ascending, "refuses-dup-interleave", &format!("c16/{}/accepted-dup-or-interleave", ln), &case);
+                        ctx.out.oracle(out_prims.iter().all(|x| *x <= max), "refuses-over-max", &format!("c16/{}/accepted-over-max", ln), &case);
+                    }
+                }
+                if !moved {
+                    // without move: exact text (blank lines, separators, trailing newline included)
+                    let want_lines: Vec<String> = prog.lines.iter().map(|l| render_line(l, &|s: &Seg| match s {
+                        Seg::Lit(t) => t.clone(),
+                        Seg::Prim(o) => mapping.get(o).unwrap_or(o).to_string(),
+                        Seg::Ref(o) => if rq.flags & 2 == 0 { mapping.get(o).unwrap_or(o).to_string() } else { o.to_string() },
+                    })).collect();
+                    let want = prog.render_with(&want_lines);
+                    ctx.out.oracle(*out == want, "exact-text", &format!("c16/{}/text-changed", ln), &case);
+                }
+            }
+        }
+    }
+    // must-refuse conditions stated on the request alone (independent of how the code decides)
+    if !sel.is_empty() && rq.step >= 1 {
+        let last = rq.first + rq.step * (sel.len() - 1);
+        let unsel: Vec<usize> = nums.iter().cloned().filter(|x| !(*x >= rq.beg && *x < rq.end)).collect();
+        let over = last > max;
+        let collide = unsel.iter().any(|u| *u >= rq.first && *u <= last);
+        if over || collide {
+            let refused = matches!(real, Ok(Err(_)));
+            ctx.out.oracle(refused, "must-refuse", &format!("c16/{}/{}", ln, if over { "accepted-over-max" } else { "accepted-dup-or-interleave" }), &case);
+            ctx.out.count(if over { "req:over-max" } else { "req:collide" });
+        }
+    }
+    let nontrivial = matches!(real, Ok(Ok(_))) && !sel.is_empty() && nrefs > 0;
+    if digit_change && nontrivial { ctx.out.count("digit-count-change"); }
+    let mut canon = src.clone().into_bytes();
+    canon.extend_from_slice(format!("|{}|{}|{}|{}|{}", rq.beg, rq.end, rq.first, rq.step, rq.flags).as_bytes());
+    ctx.out.case(&canon, nontrivial);
+    if nontrivial && digit_change { ctx.out.sample(&case); }
+}
